@@ -84,10 +84,14 @@ func verifC04DrawKid(i int, full bool, revision bool, selVal string, cachedDelet
 	n := verifC04Num[i]
 	k := &verifC04Kid{name: "c" + n, hasLabel: true, typeLabels: true}
 	k.owner = verifC04Pick("owner"+n, 3)
+	// thorough tier: the further revisions also vary deletion and the type labels
+	medium := !full && revision && rt.Tier() > 0
 	if full {
 		if !revision || rt.Tier() > 0 {
 			k.extra = rt.Bool("extra-owners" + n)
 		}
+	}
+	if full || medium {
 		k.deleting = rt.Bool("deleting" + n)
 	}
 	if k.owner == verifC04Foreign {
@@ -98,9 +102,9 @@ func verifC04DrawKid(i int, full bool, revision bool, selVal string, cachedDelet
 	}
 	if full {
 		k.hasLabel = rt.Bool("has-label" + n)
-		if revision {
-			k.typeLabels = rt.Bool("type-labels" + n)
-		}
+	}
+	if revision && (full || medium) {
+		k.typeLabels = rt.Bool("type-labels" + n)
 	}
 	if k.hasLabel {
 		k.labVal = rt.String("label" + n)
@@ -582,7 +586,7 @@ func VerifC04_RevisionClaims() {
 	var kids []*verifC04Kid
 	var cached, live []*v1alpha1.ControllerRevision
 	for i := 0; i < nKids; i++ {
-		k := verifC04DrawKid(i, i == 0 || rt.Tier() > 0, true, selVal, cachedDeleting)
+		k := verifC04DrawKid(i, i == 0, true, selVal, cachedDeleting)
 		kids = append(kids, k)
 		c := verifC04Revision(k, "u"+verifC04Num[i], false)
 		cached = append(cached, c)
